@@ -1,4 +1,5 @@
 import WowVerif.Model.C13M2
+import WowVerif.Model.C13Anim
 namespace Wv.Drv
 open Wv Wv.M2
 
@@ -10,6 +11,18 @@ def c13 (toks : List String) : Option String :=
         | [o, n] => do pure ((← o.toNat?), List.replicate (← n.toNat?) (0 : UInt8))
         | _ => none
       pure (",".intercalate ((relocated start blobs).map fun o => match o with | some n => toString n | none => "unmapped"))
+  | ["c13animparse", h] => do
+      -- the model reads a .anim file the writer produced
+      let ws ← Anim.wordsOfBytes (← bytesOfHex h)
+      match Anim.parseFile ws with
+      | some f => pure (Anim.fileStr f)
+      | none => pure "err"
+  | ["c13animrw", h] => do
+      -- … and lays the same content out again: the bytes must be the writer's
+      let ws ← Anim.wordsOfBytes (← bytesOfHex h)
+      match Anim.parseFile ws with
+      | some f => pure (hexOfBytes (Anim.bytesOfWords (Anim.writeFile f)))
+      | none => pure "err"
   | _ => none
 
 end Wv.Drv
